@@ -143,6 +143,9 @@ package server
 //@   guard-call row:   "ListenerRemove" arg(1) == Name
 // C11: removing a listener takes at most its own "listener added" event out of the retained stream
 //@   ensures onecut: len(t.EventsList) >= old(len(t.EventsList)) - 1
+// ... and what it takes out is a retained "listener added" event that names this listener,
+// so that a later operator is not told about a listener that no longer exists
+//@   guard-call cutadd: "append" inscope("EventID") ==> (t.EventsList[EventID].Head.Event == packager.Type.Listener.Type && t.EventsList[EventID].Body.SubEvent == packager.Type.Listener.Add && inscope("name") && typeis(name, string) && unboxed(name, string) == Name)
 //@   loop "for EventID := range t.EventsList"
 //@     invariant kept: len(t.EventsList) >= old(len(t.EventsList))
 
@@ -152,6 +155,8 @@ package server
 //@   modifies *
 //@   guard-call sepis: "Join" arg(1) == ", "
 //@   guard-call sep:   "Join" forall(k, 0, len(arg(0)), !contains(arg(0)[k], ", "))
+// C10/C16: the row is written under the listener's name, with the protocol of its kind
+//@   guard-call row: "ListenerAdd" argis(1, "Name") && arg(2) == ite(Type == handlers.LISTENER_HTTP, handlers.AGENT_HTTP, ite(Type == handlers.LISTENER_PIVOT_SMB, handlers.AGENT_PIVOT_SMB, handlers.AGENT_EXTERNAL))
 
 // C16: an edit reaches the running listener object itself (the one requests are served from),
 // for the listener with that name and for no other.
@@ -209,14 +214,18 @@ package server
 //@   modifies *
 // an agent already marked inactive stays inactive (nothing here ever sets the flag to true)
 //@   ensures dead: !old(Agent.Active) ==> !Agent.Active
+// C09: afterwards the agent lists no child of its own
+//@   ensures nolinks: len(Agent.Pivots.Links) == 0
 //@   loop "for len(Agent.Pivots.Links) > 0"
 //@     invariant wf: noNilLinks(Agent) && t.DB != nil && t.DB.db != nil && Agent.Info != nil
 //@     invariant dead: !old(Agent.Active) ==> !Agent.Active
 //@     decreases len(Agent.Pivots.Links)
 //@   loop "for _, ParentAgent := range t.Agents.Agents"
 //@     invariant dead: !old(Agent.Active) ==> !Agent.Active
+//@     invariant nolinks: len(Agent.Pivots.Links) == 0
 //@   loop "for i := range ParentAgent.Pivots.Links"
 //@     invariant dead: !old(Agent.Active) ==> !Agent.Active
+//@     invariant nolinks: len(Agent.Pivots.Links) == 0 && ParentAgent != Agent
 
 // C10: an agent that died is written to the database as inactive (so it is not restored).
 //@ func (t *Teamserver) EventAgentMark(AgentID string, Mark string)
@@ -228,6 +237,8 @@ package server
 //@   requires unlocked: allunlocked("Havoc/cmd/server.Client", "Mutex")
 //@   modifies *
 //@   guard-call deadrow: "AgentUpdate" arg(1) == Agent && !Agent.Active
+// C09: a dead agent keeps no link: whatever state it was in, it lists no child afterwards
+//@   ensures nolinks: len(Agent.Pivots.Links) == 0
 
 //@ func (t *Teamserver) AgentUpdate(agent *agent.Agent)
 //@   requires nonnil: t != nil && t.DB != nil && t.DB.db != nil && agent != nil && agent.Info != nil
